@@ -410,6 +410,7 @@ func checkC05(p *core.Prog, r *core.Report) {
 	slotRule(p, r, "C05/R3", "server.(*LockDB).AddTimeOut", "checkTimeoutTime", "timeoutTime", "timeoutCheckedCount")
 	c05R4(p, r)
 	rearmRule(p, r, "C05/R5", []string{"server.(*LockDB).checkTimeTimeOut", "server.(*LockDB).checkMillisecondTimeOut"}, "TimeOut", "timeouted")
+	msHandOverRule(p, r, "C05/R9", "server.(*LockDB).checkMillisecondTimeOut", "server.(*LockDB).AddMillisecondTimeOut", "AddTimeOut", "Timeout")
 }
 
 func c05R4(p *core.Prog, r *core.Report) {
@@ -490,6 +491,7 @@ func checkC06(p *core.Prog, r *core.Report) {
 	c06R8(p, r)
 	c06R9(p, r)
 	rearmRule(p, r, "C06/R7", []string{"server.(*LockDB).checkTimeExpried", "server.(*LockDB).checkMillisecondExpried"}, "Expried", "expried")
+	msHandOverRule(p, r, "C06/R10", "server.(*LockDB).checkMillisecondExpried", "server.(*LockDB).AddMillisecondExpried", "AddExpried", "Expried")
 }
 
 func c06R5(p *core.Prog, r *core.Report) {
